@@ -12,7 +12,7 @@
   OBLIGATIONS (audited by `check` with `#print axioms`):
     name_shape, created_names, member_iff_shape, roll_iff, no_active_opens_or_creates, reuse_iff, fits_real_size,
     batch_bytes, name_order, newest_first, retention_on_create, retention, retention_deletes_smallest,
-    own_set_only, one_file_at_a_time
+    own_set_only, one_file_at_a_time, template_split
 -/
 import EmitModel.Lemmas.FileSetRun
 
@@ -313,6 +313,66 @@ theorem one_file_at_a_time (cfg : Config) (plan : Nat → Fault) (now : Parts) (
             rw [hfs, fsGet_fsSet_ne _ _ hm', g1, w2, fsGet_appendBytes_ne _ _ hm]
           · show fsGet s4.fs m = fsGet s1.fs m
             rw [hfs, g1, w2, fsGet_appendBytes_ne _ _ hm]
+
+/-- **Template split** (`dir_prefix_ext` on simple Unix paths): the file name of the template is everything after
+    the last slash; the prefix and extension are that name split at its last interior dot (`my.app.log` gives
+    `my.app` / `log`), and a name without an interior dot is the prefix whole with the default extension `log`.
+    So every created name `prefix.….ext` starts with the template's stem and ends with its extension. -/
+theorem template_split (path d p e : List Nat) (h : dirPrefixExt path = some (d, p, e)) :
+    ∃ name, name ≠ [] ∧ slash ∉ name ∧
+      ((path = name ∧ d = []) ∨ ∃ d', path = d' ++ slash :: name ∧ d = if d' = [] then [slash] else d') ∧
+      ((name = p ++ dot :: e ∧ dot ∉ e ∧ p ≠ []) ∨ (name = p ∧ e = [108, 111, 103])) := by
+  unfold dirPrefixExt at h
+  -- the directory part
+  cases hsl : splitLast slash path with
+  | none =>
+    simp only [hsl] at h
+    refine ⟨path, ?_, splitLast_eq_none hsl, ?_, ?_⟩
+    · intro hp; simp [hp] at h
+    · split at h
+      · cases h
+      · cases hd : splitLast dot path with
+        | none => simp only [hd] at h; cases h; exact .inl ⟨rfl, rfl⟩
+        | some ba =>
+          obtain ⟨b, a⟩ := ba
+          simp only [hd] at h
+          split at h <;> cases h <;> exact .inl ⟨rfl, rfl⟩
+    · split at h
+      · cases h
+      · cases hd : splitLast dot path with
+        | none => simp only [hd] at h; cases h; exact .inr ⟨rfl, rfl⟩
+        | some ba =>
+          obtain ⟨b, a⟩ := ba
+          simp only [hd] at h
+          obtain ⟨e1, e2⟩ := splitLast_eq_some hd
+          split at h
+          · cases h; exact .inr ⟨rfl, rfl⟩
+          · rename_i hb; cases h; exact .inl ⟨e1, e2, hb⟩
+  | some dn =>
+    obtain ⟨d', name⟩ := dn
+    simp only [hsl] at h
+    obtain ⟨e1, e2⟩ := splitLast_eq_some hsl
+    refine ⟨name, ?_, e2, ?_, ?_⟩
+    · intro hp; simp [hp] at h
+    · split at h
+      · cases h
+      · cases hd : splitLast dot name with
+        | none => simp only [hd] at h; cases h; exact .inr ⟨d', e1, rfl⟩
+        | some ba =>
+          obtain ⟨b, a⟩ := ba
+          simp only [hd] at h
+          split at h <;> cases h <;> exact .inr ⟨d', e1, rfl⟩
+    · split at h
+      · cases h
+      · cases hd : splitLast dot name with
+        | none => simp only [hd] at h; cases h; exact .inr ⟨rfl, rfl⟩
+        | some ba =>
+          obtain ⟨b, a⟩ := ba
+          simp only [hd] at h
+          obtain ⟨f1, f2⟩ := splitLast_eq_some hd
+          split at h
+          · cases h; exact .inr ⟨rfl, rfl⟩
+          · rename_i hb; cases h; exact .inl ⟨f1, f2, hb⟩
 
 /-! ### the hypotheses are satisfiable -/
 
